@@ -81,11 +81,25 @@ def main(argv=None):
         keys = a.jobs.split(",")
         joblist = [j for j in joblist if any(k in j[0] for k in keys)]
     args = [(modname, fn, kw) for (_n, fn, kw) in joblist]
-    if a.procs <= 1 or len(args) <= 1:
+    if a.procs <= 1 or not args:
         results = [_worker(x) for x in args]
     else:
-        with mp.get_context("fork").Pool(min(a.procs, len(args))) as pool:
-            results = pool.map(_worker, args, chunksize=1)
+        # one deadline for the whole batch of jobs: a job that does not come back (a changed implementation can make the
+        # exploration or a solver call run away, a killed worker never answers) is reported as a harness error, never waited for
+        limit = float(os.environ.get("VERIF_JOB_LIMIT_S", "1500" if a.tier == "quick" else "5400"))
+        pool = mp.get_context("fork").Pool(min(a.procs, len(args)))
+        try:
+            handles = [pool.apply_async(_worker, (x,)) for x in args]
+            results = []
+            for x, h in zip(args, handles):
+                try:
+                    results.append(h.get(timeout=max(1.0, t0 + limit - time.time())))
+                except mp.TimeoutError:
+                    results.append({"job": f"{x[1]}{x[2]}", "error": f"HarnessError: job did not finish within {limit:.0f} s of the start of the check", "verdicts": [],
+                                    "paths": 0, "queries": 0, "solver_time": 0.0})
+        finally:
+            pool.terminate()
+            pool.join()
 
     errors = [r for r in results if r.get("error")]
     verdicts = [dict(v, job=r["job"]) for r in results for v in r.get("verdicts", [])]
